@@ -99,6 +99,12 @@ TAINTS += [OPENC, f"[{OPENC}]", f"1.0*{OPENC}.fileno()", f"-0.25+len({OPENC}.rea
 VY_TAINTS = [f"⟨`{CANARY}(7)`E⟩", "⟨`vx-out`,⟩", "⟨1|`vx-out`,|3⟩", f"`{CANARY}(7)`E", f"⟨`{OPENC}`†⟩", "λ`vx-out`,;†", "`vx-out`,", f"⟨⟨`{CANARY}(1)`E⟩⟩",
              "⟨1|2|3⟩", f"⟨`a`|`{CANARY}(2)`E,⟩", "⟨`vx-out`₴|2⟩", f"⟨?E⟩", "⟨`vx-out`…⟩"]
 TAINTS += VY_TAINTS
+# literal VALUES (sets, lists, tuples, dicts, strings) whose string members are Python code: reading the literal is fine,
+# evaluating what is inside the strings is not (e.g. by handing them to a library that parses strings)
+LITERAL_TAINTS = ['{"%s(7)"}' % CANARY, '[1, {"%s(2)"}]' % CANARY, '("%s(3)",)' % CANARY, '["%s(4)", 2]' % CANARY, '{"k": "%s(5)"}' % CANARY, '"%s(6)"' % CANARY,
+                  "{'%s'}" % OPENC.replace("'", '"'), "[{'%s'}, 3]" % MKDIRC.replace("'", '"'), '{"1.0*%s(8)"}' % CANARY, 'frozenset({"%s(9)"})' % CANARY,
+                  '{("%s(1)", 2)}' % CANARY, '[[["%s(2)"]]]' % CANARY]
+TAINTS += LITERAL_TAINTS
 WEIRD = ["None", "...", "1e999", "-1e999", "[None, 'x']", "True", "False", "b'x'", "{1, 2}", "{'a': 1}", "1j", "-", "(", "''", '"""', "1_000", "0o17",
          "[1,[2,[3]]]", "[[]]", "()", "1,2", "[1.5, None]", "nan", "inf", "1e-999", "[True, [False]]", "(None,)", "\\", "\x00", "[...]", "{}", "set()"]
 BENIGN = WEIRD + ["[1,2,3]", "1.5", "'abc'", "(1,2)", "12", "abc", "-3", "[[1,2],[3]]", '"x"', "1e3", "0x10", ""]
@@ -245,6 +251,14 @@ def _shard_fixed(rec, arg):
                 if i % nshards != shard:
                     continue
                 _do(rec, p, fl, [t, t], "fixed-taint-matrix")
+    # the longest names: a function name with hundreds of characters that are dropped from the identifier
+    for junk in (" " * 257, " " * 400, "(" * 300, "+" * 1000, "\n" * 260):
+        for payload in (f"if {CANARY}(1) else dict", f"or {CANARY}(2)", f"{CANARY}", "if print(1) else dict"):
+            for form in ("@a{};", "@a{}:1|2;", "@a{}:1|2;3@a{};", "λ@a{};;†"):
+                i += 1
+                if i % nshards != shard:
+                    continue
+                _do(rec, form.replace("{}", junk + payload), "", [TAINTS[0]], "long-function-names")
     for vm in VALUE_MAKERS:
         for pr in PRINTERS + [""]:
             for fl in FLAGS:
